@@ -1353,6 +1353,18 @@ class H2Stream:
         self._inbound_window_manager.window_opened(delta)
         self._inbound_window_manager.max_window_size = new_max_size
 
+        # Bytes the application has already acknowledged may be enough to
+        # warrant a WINDOW_UPDATE against the new target size. Nothing else
+        # would re-evaluate them, and a shrunk window could stay at zero.
+        frames = []
+        if self.open:
+            increment = self._inbound_window_manager._maybe_update_window()
+            if increment:
+                f = WindowUpdateFrame(self.stream_id)
+                f.window_increment = increment
+                frames.append(f)
+        return frames
+
 
 def _decode_headers(headers, encoding):
     """
